@@ -24,7 +24,7 @@ MIN = {'quick': {'distinct': 300,
                            'treeanalysis.gap_degree': 500,
                            'treeanalysis.disco_order': 500,
                            'cli.treeanalysis': 30},
-                 'strata': {'node gapdeg>=2': 50,
+                 'strata': {'node gapdeg>=2': 50, 'cli source in latin-1': 6,
                             're-analysis after in-place transformation': 300}},
        'thorough': {'distinct': 20000,
                     'hooks': {'treeanalysis.gap_degree_node': 500000,
@@ -318,15 +318,29 @@ def cli_bank(ctx, bank, rng):
     cont = all(model.gapdeg(model.from_spec(s['root'])) == 0 for s in bank)
     fmt = rng.choice(['export', 'export', 'tigerxml', 'discobrackets']
                      + (['brackets'] if cont else []))
+    senc = rng.choice(['utf-8', 'utf-8', 'latin-1'])
+    if senc == 'latin-1' or rng.random() < 0.3:
+        # the report does not depend on the words, reading the file does
+        import copy
+        bank = copy.deepcopy(bank)
+        for s in bank:
+            for t in gen.tokens_of(s['root']):
+                if rng.random() < 0.4:
+                    t['w'] = rng.choice(['Übung', 'café', 'Ärger', 'ß'])
+    sopts = rng.choice([[], ['quiet'], ['quiet', 'continuous'],
+                        ['brackets_firstid:3']])
     text = {'export': lambda: codec.export_encode(bank, v4=rng.random() < 0.3),
-            'tigerxml': lambda: codec.tigerxml_encode(bank),
+            'tigerxml': lambda: codec.tigerxml_encode(bank, encoding=senc),
             'discobrackets': lambda: codec.discobrackets_encode(bank),
             'brackets': lambda: codec.brackets_encode(bank)}[fmt]()
-    path = common.write(ctx.path('.' + fmt), text)
+    path = common.write(ctx.path('.' + fmt), text, senc)
     ctx.stratum('cli source ' + fmt)
+    if senc != 'utf-8':
+        ctx.stratum('cli source in latin-1')
     for task in ('GapDegree', 'PosTags', 'SentenceCount'):
         rc, out, err = common.cli(['treeanalysis', path, task,
-                                   '--src-format', fmt])
+                                   '--src-format', fmt, '--src-enc', senc]
+                                  + (['--src-opts'] + sopts if sopts else []))
         ctx.hook('cli.treeanalysis')
         if rc != 0:
             ctx.fail('C16:cli-exit-status',
